@@ -226,3 +226,45 @@ func zzRxLegacyTwice() {
 		zzsymAssert(len(c.decrypted) == 0, "too_old_not_delivered")
 	}
 }
+
+type zzPC5 struct{ net.PacketConn }
+
+// The same "forgeries vanish" claim on a connection RESTORED from exported state, built the way ResumeWithOptions
+// builds it (createConn with a resume state, then prepareHandshakeStart adopts it): the restored connection has not
+// seen any record of epoch 1 yet. The first thing to arrive is a record of epoch 1 with an ARBITRARY 48-bit sequence
+// number that FAILS authentication (a forgery far ahead of the peer's real numbers, say); then the peer's genuine
+// record with an arbitrary sequence number arrives. Proved: the forgery delivers nothing and the genuine record is
+// delivered - the replay state of the restored epoch is not positioned by unauthenticated input.
+//
+//symgo:entry covers=genuine_after_forgery_on_restored_connection
+func zzRxRestoredConnForgeryThenGenuine() {
+	isClient := zzsymChoice("is_client", 2) == 1
+	suite := &zzRxSuite{authOK: []bool{false, true}, initDone: true}
+	st := &dtlsstate.State12{Common: &dtlsstate.Common{IsClient: isClient, LocalVersion: protocol.Version1_2}}
+	st.CipherSuite = suite
+	st.SetLocalEpoch(1)
+	st.SetRemoteEpoch(1)
+	st.LocalSequenceNumber = []uint64{0, 7}
+	cfg := &dtlsConfig{}
+	cfg.ReplayProtectionWindow = 64
+	c, err := createConn(zzPC5{}, &net.UDPAddr{Port: 1}, cfg, isClient, st)
+	zzsymAssert(err == nil && c != nil, "restored_conn_created")
+	c.log = zzNopLogger{}
+	_, err = c.prepareHandshakeStart(context.Background())
+	zzsymAssert(err == nil, "restored_state_adopted")
+	mk := func(seq uint64) []byte {
+		h := recordlayer.Header{ContentType: protocol.ContentTypeApplicationData, Version: protocol.Version1_2, Epoch: 1, SequenceNumber: seq, ContentLen: 1}
+		raw, _ := h.Marshal()
+		return append(raw, 0x55)
+	}
+	forged, genuine := zzsymU64("forged_seq"), zzsymU64("genuine_seq")
+	zzsymAssume(forged <= recordlayer.MaxSequenceNumber)
+	zzsymAssume(genuine <= recordlayer.MaxSequenceNumber)
+	from := &net.UDPAddr{Port: 1}
+	out, err := c.handleIncomingPacket(context.Background(), mk(forged), from, nil)
+	zzsymAssert(err == nil && out.responseAlert == nil && len(c.decrypted) == 0, "forgery_on_restored_connection_vanishes")
+	_, err = c.handleIncomingPacket(context.Background(), mk(genuine), from, nil)
+	zzsymAssert(err == nil, "genuine_no_error")
+	zzsymAssert(len(c.decrypted) == 1, "genuine_record_delivered_after_forgery_on_restored_connection")
+	zzsymCover("genuine_after_forgery_on_restored_connection")
+}
